@@ -87,7 +87,7 @@ static CaseResult system_case(Tape &t)
 	// the challenge the server issues is its first rand() value: two cases in three force a boundary value of rand()'s range
 	static const int FORCED[] = {0, 1, 2, 0x7fffffff, 0x7ffffffe, 0x40000000, 0x3fffffff, 0x00ffffff, 0x01000000, 0x7fffff00};
 	int forced = t.chance(2, 3) ? FORCED[t.below(10)] : -1;
-	struct Seen { bool login = false, rawc = false, raws = false; std::string err; uint32_t challenge = 0; bool have_ch = false; int nlog = 0, nrawc = 0, nraws = 0, nrawping = 0; } S;
+	struct Seen { bool login = false, rawc = false, raws = false; std::string err; uint32_t challenge = 0; bool have_ch = false; int nlog = 0, nrawc = 0, nraws = 0, nrawping = 0; sim::Addr client_from, client_to; bool have_from = false; } S;
 	sim::W.on_send = [&](const sim::Datagram &dg) {
 		const Bytes &d = dg.data;
 		if (dg.from_inst == s.srv->idx) {
@@ -106,7 +106,7 @@ static CaseResult system_case(Tape &t)
 		} else if (dg.from_inst == s.cli[0]->idx) {
 			if (d.size() >= 20 && d[0] == 0x10 && d[1] == 0xd1 && d[2] == 0x9e && (d[3] & 0xf0) == 0x10) {
 				uint8_t w[16]; ref::login_hash(pw, S.challenge + 1, w);
-				S.nrawc++;
+				S.nrawc++; S.client_from = dg.src; S.client_to = dg.dst; S.have_from = true;
 				if (!S.have_ch || memcmp(w, d.data() + 4, 16)) S.err = "client raw login is not hash(challenge+1)";
 				else S.rawc = true;
 			} else if (d.size() >= 4 && d[0] == 0x10 && d[1] == 0xd1 && d[2] == 0x9e && ((d[3] & 0xf0) == 0x30 || (d[3] & 0xf0) == 0x20)) {
@@ -139,12 +139,36 @@ static CaseResult system_case(Tape &t)
 	s.start_client(0);
 	bool up = s.wait_handshake(0, 120);
 	if (up) sim::W.run_for(3000000);
+	// a raw login that carries only part of the digest must not be accepted -- not even right after the complete one, when the
+	// missing bytes still sit in the server's receive buffer
+	int n_after_full = -1, n_after_cut = -1; size_t cutlen = 0;
+	if (up && S.raws && S.have_ch && t.chance(1, 2)) {
+		uint8_t w[16]; ref::login_hash(pw, S.challenge + 1, w);
+		int user = -1;
+		// the user number is in the client's log ("You are user #N")
+		{ size_t pz = s.cli[0]->log.find("You are user #"); if (pz != std::string::npos) user = atoi(s.cli[0]->log.c_str() + pz + 14); }
+		if (user >= 0) {
+			Bytes full = refproto::raw_frame(1, user, Bytes(w, w + 16));
+			int before = S.nraws;
+			sim::Datagram a; a.src = S.client_from; a.dst = S.client_to; a.data = full;
+			if (S.have_from) { sim::W.send(a); sim::W.run_for(3000); n_after_full = S.nraws - before;
+				cutlen = 16 + t.below(4); a.data.assign(full.begin(), full.begin() + cutlen); before = S.nraws;
+				// the simulator fills a receive buffer beyond the datagram with a residue pattern; here the residue is what a real buffer
+				// would hold: the rest of the complete frame received just before
+				int rm = sim::W.residue_mode; Bytes rd = sim::W.residue_data;
+				sim::W.residue_mode = 2; sim::W.residue_data.assign(full.begin() + cutlen, full.end());
+				sim::W.send(a); sim::W.run_for(3000); n_after_cut = S.nraws - before;
+				sim::W.residue_mode = rm; sim::W.residue_data = rd; }
+		}
+	}
 	char hd[256]; snprintf(hd, sizeof hd, "system: password(%zu)=%s type=%d challenge=0x%08x handshake=%d rawlogin c=%d s=%d", plen, hexs(pw, 40).c_str(), c.qtype, S.challenge, (int)up, S.nrawc, S.nraws);
 	r.render = hd;
 	if (!S.err.empty()) r.fail("C19:wire", S.err + " [" + r.render + "]");
 	else if (!up) r.fail("C19:handshake", "honest handshake did not complete [" + r.render + "]\n" + s.cli[0]->log);
 	else if (!S.login || !S.rawc || !S.raws) r.fail("C19:coverage", "login / raw login frames not observed [" + r.render + "]");
 	else if (S.nrawping == 0) r.fail("C19:raw-not-entered", "server answered the raw login with hash(challenge-1) but the client did not switch to raw mode [" + r.render + "]");
+	if (r.ok && n_after_cut > 0) r.fail("C19:partial-digest-accepted", "a raw login frame cut to " + std::to_string(cutlen) + " bytes (only part of the digest), sent right after the complete one, was answered [" + r.render + "]");
+	if (n_after_cut >= 0) r.cls("system:cut-raw-login-after-complete-one");
 	if (r.ok && forced >= 0 && S.challenge != (uint32_t)forced) r.fail("C19:harness", "the forced challenge was not issued [" + r.render + "]");
 	r.nontrivial = S.login && S.rawc && S.raws;
 	r.cls("system");
@@ -207,9 +231,45 @@ static CaseResult client_case(Tape &t)
 	return r;
 }
 
+extern "C" void read_password(char *buf, size_t len);
+
+// The third way a password reaches the programs: typed at the prompt.  read_password() is called with the harness's stdin replaced
+// by the typed line; what it hands back must be the first 32 bytes of exactly what was typed (up to the newline), so that the
+// digest computed from it equals the digest for the password as the other side knows it.
+static CaseResult prompt_case(Tape &t)
+{
+	CaseResult r;
+	size_t plen = (size_t)t.range(1, 40);
+	std::string pw;
+	int pclass = (int)t.below(3);
+	for (size_t i = 0; i < plen; i++) { char ch = (char)(pclass == 0 ? t.range(0x21, 0x7e) : (pclass == 1 ? t.range(0x80, 0xfe) : t.range(1, 255))); if (ch == '\n') ch = 'n'; pw += ch; }
+	if (t.chance(1, 2)) { static const char WS[] = " \t\r\v\f"; size_t n = 1 + t.below(3); std::string lead; for (size_t i = 0; i < n; i++) lead += WS[t.below(5)]; if (t.chance(2, 3)) pw = lead + pw; else pw += lead; }
+	if (pw.size() > 78) pw.resize(78);
+	std::string line = pw + "\n";
+	FILE *saved = stdin;
+	FILE *in = fmemopen((void *)line.data(), line.size(), "r");
+	if (!in) { r.render = "prompt: fmemopen failed"; return r; }
+	stdin = in;
+	char buf[33]; memset(buf, 0x7e, sizeof buf);
+	read_password(buf, sizeof buf);
+	stdin = saved; fclose(in);
+	std::string got(buf, strnlen(buf, sizeof buf));
+	std::string want = pw.substr(0, 32);
+	r.render = "prompt: typed " + hexs(Bytes(pw.begin(), pw.end()), 48) + " -> password buffer " + hexs(Bytes(got.begin(), got.end()), 48);
+	if (got != want) r.fail("C19:prompt", "the password taken from the prompt is not what was typed (first 32 bytes): " + r.render);
+	uint32_t ch = gen_challenge(t);
+	uint8_t w[16], g[16]; char b33[33]; memset(b33, 0, sizeof b33); memcpy(b33, got.data(), std::min<size_t>(got.size(), 32));
+	ref::login_hash(Bytes(pw.begin(), pw.end()), ch, w);
+	v_login_calculate((char *)g, 16, b33, (int)ch);
+	if (r.ok && memcmp(w, g, 16)) r.fail("C19:prompt", "digest computed from the prompted password differs from the digest for the typed password: " + r.render);
+	r.nontrivial = true;
+	r.cls("prompt"); if (!pw.empty() && strchr(" \t\r\v\f", pw[0])) r.cls("prompt:leading-white-space");
+	return r;
+}
+
 static CaseResult run_case(Tape &t)
 {
-	switch (t.pick({60, 1, 1})) { case 1: return system_case(t); case 2: return client_case(t); default: return unit_case(t); }
+	switch (t.pick({60, 1, 1, 2})) { case 1: return system_case(t); case 2: return client_case(t); case 3: return prompt_case(t); default: return unit_case(t); }
 }
 
 int main(int argc, char **argv)
